@@ -45,9 +45,16 @@ impl<'a> PackageIndex<'a> {
     }
 }
 
-/// Extract version prefix (^, ~, >=, <=, >, <, =, v) from a version string
+/// Extract version prefix (^, ~, >=, <=, >, <, =, v and the PEP 440 operators ===, ==, ~=)
+/// from a version string
 fn extract_version_prefix(version: &str) -> &str {
-    if version.starts_with(">=") {
+    if version.starts_with("===") {
+        "==="
+    } else if version.starts_with("==") {
+        "=="
+    } else if version.starts_with("~=") {
+        "~="
+    } else if version.starts_with(">=") {
         ">="
     } else if version.starts_with("<=") {
         "<="
